@@ -58,8 +58,8 @@ func propWalletHTLC(t *rapid.T) {
 		t.Skipf("send failed: %v", err)
 	}
 	// the mint may rotate its keyset between locking and redeeming: the receiving wallet (loaded before) discovers the
-	// rotation inside the receive. (Tokens of a rotated-out keyset are built without DLEQ: Receive checks DLEQ proofs
-	// against the active keyset only - an observation outside this property.)
+	// rotation inside the receive. The token's proofs then belong to a retired keyset; with DLEQ proofs attached the
+	// receiver has to check them against that keyset's keys (it used the active keyset's until fix db14652).
 	withDLEQ := rapid.Bool().Draw(t, "dleq")
 	rotated := rapid.IntRange(0, 2).Draw(t, "rotate_before_receive") == 0
 	if rotated {
@@ -67,7 +67,6 @@ func propWalletHTLC(t *rapid.T) {
 			t.Fatalf("rotate: %v", err)
 		}
 		e.Mints[0].RefreshKeysets()
-		withDLEQ = false
 	}
 	tok, err := cashu.NewTokenV4(append(cashu.Proofs{}, proofs...), url, cashu.Sat, withDLEQ)
 	if err != nil {
@@ -79,6 +78,9 @@ func propWalletHTLC(t *rapid.T) {
 	rec.Class(cls)
 	if rotated {
 		rec.Class("wallet_receive_discovers_rotation")
+		if withDLEQ {
+			rec.Class("wallet_receive_retired_keyset_token_with_dleq")
+		}
 	}
 	redeemable := proofs.Amount() > (uint64(len(proofs))*uint64(fee)+999)/1000
 	// (after a rotation the redemption itself must be the receiver's first contact with the mint: no probes first)
